@@ -53,6 +53,7 @@ static void modelTest(const Desc& d, const Vec<int>& testGroups, const Vec<int>&
     int mySeq = ++ms.seq;
     // plugin pre actions: installation-reversed order (the chain, head first)
     if (!ms.chainInit) { ms.chainInit = true; for (size_t p = pluginGroups.size(); p-- > 0;) { const Group& P = d.groups[(size_t)pluginGroups[p]]; if (!P.arg(1) && !P.arg(2)) ms.chain.push_back((int)p); } }
+    Vec<int> selfRemoved;
     Vec<int> chainAtStart = ms.chain;      // (a pre action may take a plugin behind it out of the chain: it is erased from this walk list as well and sees neither action)
     for (size_t ci = 0; ci < chainAtStart.size(); ci++) {
         size_t p = (size_t)chainAtStart[ci];
@@ -64,6 +65,7 @@ static void modelTest(const Desc& d, const Vec<int>& testGroups, const Vec<int>&
                 int q = (int)o.a; bool behind = false;
                 for (size_t cj = ci + 1; cj < chainAtStart.size(); cj++) if (chainAtStart[cj] == q) { behind = true; chainAtStart.erase(chainAtStart.begin() + (long)cj); break; }
                 Vec<int>::iterator it = std::find(ms.chain.begin(), ms.chain.end(), q);
+                if (it != ms.chain.end() && q == (int)p) { ms.chain.erase(it); selfRemoved.push_back(q); }      // a plugin that takes itself out during its own pre action: the walk goes on behind it (every other plugin sees this test as usual), it has no post action, and is gone afterwards
                 if (it != ms.chain.end() && q != (int)p) { ms.chain.erase(it); if (!behind) x.chainChanged = true; }      // a plugin that already had its pre action loses its post action: the test's own doing, not compared
             }
             if (o.kind == K_PLUGIN_ERROR) {          // a plugin may also report an error before the test starts; the test still runs
@@ -147,6 +149,7 @@ static void modelTest(const Desc& d, const Vec<int>& testGroups, const Vec<int>&
         size_t p = (size_t)chainAtStart[ci];
         const Group& P = d.groups[(size_t)pluginGroups[p]];
         if (!P.arg(0, 1)) continue;
+        if (std::find(selfRemoved.begin(), selfRemoved.end(), (int)p) != selfRemoved.end()) continue;
         for (size_t i = 0; i < P.ops.size(); i++) {
             const Op& o = P.ops[i]; if (o.phase != PH_POST) continue;
             if (o.kind == K_PLUGIN_ERROR) {
